@@ -211,6 +211,9 @@ type Raft struct {
 	// The timestamp representing the time of the last contact by the leader.
 	lastContact time.Time
 
+	// Indicates that this node was started and then stopped, i.e. its log is closed.
+	stopped bool
+
 	wg sync.WaitGroup
 
 	mu sync.Mutex
@@ -445,6 +448,13 @@ func (r *Raft) start(restore bool) error {
 		return nil
 	}
 
+	// A node that was stopped has closed its log: its state must be restored from
+	// storage even if Start was called where Restart was expected, otherwise the
+	// background loops would run over a closed log.
+	if r.stopped {
+		restore = true
+	}
+
 	if restore {
 		if err := r.restore(); err != nil {
 			return fmt.Errorf("could not restore state: %w", err)
@@ -505,6 +515,7 @@ func (r *Raft) Stop() {
 	}
 
 	r.state = Shutdown
+	r.stopped = true
 	r.applyCond.Broadcast()
 	r.commitCond.Broadcast()
 	r.readOnlyCond.Broadcast()
